@@ -264,7 +264,7 @@ def _as_array(copying):
 
 def hooks():
     return {
-        "ext": {"numpy.asarray": _as_array(False), "numpy.asanyarray": _as_array(False), "numpy.array": _as_array(True),
+        "ext": {"numpy.require": lambda x, *a, **k: x, "numpy.ascontiguousarray": lambda x, *a, **k: x, "numpy.asarray": _as_array(False), "numpy.asanyarray": _as_array(False), "numpy.array": _as_array(True),
                 "numpy.ascontiguousarray": _as_array(True), "numpy.copy": _as_array(True),
                 "numpy.issubdtype": issubdtype,
                 "numpy.reciprocal": lambda x: x, "numpy.amin": lambda x: x, "numpy.amax": lambda x: x},
